@@ -32,6 +32,8 @@ type world struct {
 	n2     *reftx.Block // height 112 on n1
 	n1c    *reftx.Block // height 111 sibling: coinbase only
 	n1d    *reftx.Block // height 111 sibling: coinbase + txT (for two prefilled)
+	coins  []coin       // spendable outputs of every standard kind (outputs of fund)
+	fund   *reftx.Tx    // confirmed in block 107
 	n1w    *reftx.Block // height 111 sibling: coinbase + witness-flagged txW, with commitment
 }
 
@@ -51,6 +53,12 @@ func buildWorld(dir string, deliver bool) *world {
 			a := minichain.Spend([]refchain.Outpoint{{Tx: w.cb[1], Vout: 0}}, []reftx.Out{o1(20e8), o1(30e8)})
 			b := minichain.Spend([]refchain.Outpoint{{Tx: w.cb[2], Vout: 0}}, []reftx.Out{o1(50e8)})
 			s.Txs = []*reftx.Tx{a, b}
+		}
+		if h == 107 {
+			w.coins = makeCoins()
+			w.fund = fundingTx(w.cb[5], w.coins)
+			s.Txs = []*reftx.Tx{w.fund}
+			s.Fees = 50e8 - uint64(len(w.coins))*coinValue
 		}
 		b := minichain.Build(s)
 		if deliver {
